@@ -833,67 +833,62 @@ theorem renO_fixed (π : Ren) (e : Option Expr) (h : (namesO e).all (fun x => π
 
 /-! ### `if` tests -/
 
-theorem isDebugTest_ren_true {π : Ren} {P : String → Bool} (hs : Stat π P) (c : Expr) (h : isDebugTest c = true) :
-    isDebugTest (renE π c) = true := by
-  have hfix : π "__debug__" = "__debug__" := hs.resFix _ (by simp [reserved])
-  unfold isDebugTest at h
-  split at h <;> first | (simp [renE, renEs, isDebugTest, hfix]; done) | (simp at h)
+theorem isDbgName_ren {π : Ren} {P : String → Bool} {s s' : St} (h : Rel π P s s') (hs : Stat π P) (c : Expr) (hok : okE P c = true) :
+    isDbgName (renE π c) = isDbgName c := by
+  cases c <;> try rfl
+  rename_i x ctx
+  have hx : P x = true := by simpa [okE, namesE] using hok
+  simp only [renE, isDbgName, debug_iff h hs x hx]
 
-theorem isDebugTest_ren_of {π : Ren} {P : String → Bool} {s s' : St} (hr : Rel π P s s') (hs : Stat π P) (c : Expr) (hok : okE P c = true)
-    (h : isDebugTest (renE π c) = true) : isDebugTest c = true := by
-  have hback : ∀ x, P x = true → π x = "__debug__" → x = "__debug__" := by
-    intro x hx hπ
-    have := res_iff hr hs "__debug__" (by simp [reserved]) x hx
-    rw [hπ] at this
-    simpa using this.symm
-  cases c
+theorem debugCmp_ren {π : Ren} {P : String → Bool} {s s' : St} (h : Rel π P s s') (hs : Stat π P) (c : Expr) (hok : okE P c = true) :
+    debugCmp (renE π c) = (debugCmp c).map (fun p => (p.1, renE π p.2)) := by
+  cases c <;> try rfl
+  rename_i l ops cs
+  cases l
   case name x ctx =>
-    have hx : P x = true := by simpa [okE, namesE] using hok
-    simp only [renE] at h
-    unfold isDebugTest at h
-    split at h
-    · rename_i heq
-      injection heq with h1 _
-      rw [hback x hx h1]; simp [isDebugTest]
-    all_goals first | (rename_i heq; cases heq) | (simp at h)
-  case compare l ops cs =>
-    simp only [renE] at h
-    unfold isDebugTest at h
-    split at h
-    · rename_i heq; cases heq
-    all_goals first
-      | (rename_i heq
-         injection heq with h1 h2 h3
-         cases l <;> simp [renE] at h1
-         rename_i x ctx0
-         obtain ⟨h1a, h1b⟩ := h1
-         have hx : P x = true := by
-           have : (namesE (.compare (.name x ctx0) ops cs)).all P = true := hok
-           simp only [namesE, List.cons_append, List.nil_append, List.all_cons, Bool.and_eq_true] at this
-           exact this.1
-         have := hback x hx h1a
-         subst this
-         subst h2
-         match cs, h3 with
-         | [k], h3 =>
-           simp only [renEs, List.cons.injEq, and_true] at h3
-           cases k <;> simp [renE] at h3
-           subst h3
-           simp [isDebugTest]
-         | [], h3 => simp [renEs] at h3
-         | _ :: _ :: _, h3 => simp [renEs] at h3)
-      | (simp at h)
-  all_goals (simp only [renE] at h; simp [isDebugTest] at h)
+    have hx : P x = true := by
+      have : (namesE (.compare (.name x ctx) ops cs)).all P = true := hok
+      simp only [namesE, List.cons_append, List.nil_append, List.all_cons, Bool.and_eq_true] at this
+      exact this.1
+    match ops, cs with
+    | [op], [r] =>
+      simp only [renE, renEs, debugCmp, debug_iff h hs x hx]
+      split <;> rfl
+    | [], _ => rfl
+    | [_], [] => rfl
+    | [_], _ :: _ :: _ => rfl
+    | _ :: _ :: _, _ => rfl
+  all_goals (simp only [renE]; rfl)
+
+theorem debugCmp_names {P : String → Bool} (c : Expr) (op : CmpOpK) (e : Expr) (hd : debugCmp c = some (op, e)) (hok : okE P c = true) :
+    okE P e = true := by
+  unfold debugCmp at hd
+  split at hd
+  · rename_i x ctx op' e'
+    split at hd
+    · simp only [Option.some.injEq, Prod.mk.injEq] at hd
+      obtain ⟨_, rfl⟩ := hd
+      have : (namesE (.compare (.name x ctx) [op'] [e'])).all P = true := hok
+      simp only [namesE, namesEs, List.cons_append, List.nil_append, List.append_nil, List.all_cons, Bool.and_eq_true] at this
+      exact this.2
+    · simp at hd
+  · simp at hd
 
 theorem condE_ren {π : Ren} {P : String → Bool} {s s' : St} (h : Rel π P s s') (hs : Stat π P) (c : Expr) (hok : okE P c = true) :
     condE o s' (renE π c) = condE o s c := by
   unfold condE
-  by_cases hd : isDebugTest c = true
-  · simp [hd, isDebugTest_ren_true hs c hd]
-  · have hd' : isDebugTest (renE π c) ≠ true := fun hc => hd (isDebugTest_ren_of h hs c hok hc)
-    simp only [hd, hd', Bool.false_eq_true, if_false]
-    exact evalE_ren h hs c hok
-
+  rw [isDbgName_ren h hs c hok, debugCmp_ren h hs c hok]
+  by_cases hdn : isDbgName c = true
+  · simp only [hdn, if_true]
+  · simp only [hdn, Bool.false_eq_true, if_false]
+    cases hd : debugCmp c with
+    | some p =>
+      obtain ⟨op, e⟩ := p
+      simp only [Option.map_some]
+      rw [evalE_ren h hs e (debugCmp_names c op e hd hok)]
+    | none =>
+      simp only [Option.map_none]
+      exact evalE_ren h hs c hok
 
 theorem forRange_ren {π : Ren} {P : String → Bool} {s s' : St} (h : Rel π P s s') (hs : Stat π P) (tg it : Expr) (hok : okE P it = true) :
     forRange (renE π tg) (renE π it) = (forRange tg it).map (fun p => (π p.1, renE π p.2)) := by
